@@ -144,15 +144,20 @@ template <typename KeyT, typename ValueT>
 std::istream& deserialize(std::istream& is, std::map< KeyT, ValueT >& rhs)
 {
 
-    size_t size;
+    size_t size = 0;
     is >> size;
     rhs.clear();
     for (size_t i=0; i<size; i++)
     {
-        KeyT key;
-        ValueT value;
+        KeyT key{};
+        ValueT value{};
         deserialize(is, key);
         deserialize(is, value);
+        if (!is) {
+            // malformed or truncated input: the declared size cannot be trusted,
+            // e.g. "-1" or an overflowing number would otherwise loop (almost) forever
+            break;
+        }
         rhs[key] = value;
     }
 
